@@ -274,6 +274,7 @@ static void build_scenarios2()
       [](World& w) { return dbRegression(w.dbout, "z1", {"a1", "a2"}, 0, true, w.aux[0]); });
   add("dbRegression-db2-larger", [auxdb](World& w) { w.dbout = data2d(); w.aux.push_back(auxdb(true)); },
       [](World& w) { return dbRegression(w.dbout, "z1", {"a1", "a2"}, 0, true, w.aux[0]); });
+  add("migrateByLocator1", [](World& w) { w.dbin = data2d(); w.dbout = grid2d(); }, [](World& w) { return migrateByLocator(w.dbin, w.dbout, ELoc::Z); });
   add("migrateByAttribute", [](World& w) { w.dbin = data2d(2); w.dbout = grid2d(); },
       [](World& w) { return migrateByAttribute(w.dbin, w.dbout, {w.dbin->getUID("z1")}); });
   add("kriging-larger-input", [](World& w) { w.dbin = data2d(); w.dbin->addColumnsByConstant(6, 2.5, "pad", ELoc::UNKNOWN); w.dbout = targets2d(); w.model = model2d(); w.neigh = NeighUnique::create(); },
@@ -377,6 +378,7 @@ static const std::map<std::string, std::vector<std::string>>& expected_names()
     {"dbRegression-db2-smaller", {"Regr.z1|Z0"}},
     {"dbRegression-db2-larger", {"Regr.z1|Z0"}},
     {"migrateByAttribute", {"Migrate.z1|Z0"}},
+    {"migrateByLocator1", {"Migrate.z1|Z0"}},
     {"kriging-larger-input", {"Kriging.z1.estim|Z0", "Kriging.z1.stdev"}},
     {"simuPost", {"Post.Var1.Mean", "Post.Var2.Mean"}},
     {"tessellation_voronoi", {"Voronoi|Z0"}},
@@ -861,6 +863,171 @@ VF_PART(inject)
   for_each_case(C, sp, [&](uint64_t id, const std::vector<int>& idx) { run_forked(C, id, SC[idx[0]], idx[1], idx[2], -1); });
 }
 
+
+// ------------------------------------------------------------------------------------------------------------
+// PAIRS of faults on the same data bases: fail(calculator A at point p) ; fail(calculator B at point q) ;
+// succeed(calculator C). After each failed step every data base must be bit-identical to its state before the step;
+// after the final success: input identical, exactly the documented outputs (names and roles), old cells unchanged,
+// and the result equal (UIDs aside) to C run alone on a fresh world.
+struct Family { std::string name; std::function<void(World&)> build; std::vector<std::string> members; };
+static std::vector<Family> FAM;
+static const Scenario* find_scenario(const std::string& n) { for (auto& s : SC) if (s.calc == n) return &s; return nullptr; }
+static void build_families()
+{
+  FAM.push_back({"interpolators(data 6 pts -> grid 3x3, moving neighbourhood)",
+                 [](World& w) { w.dbin = data2d(); w.dbout = grid2d(); w.model = model2d(); w.neigh = NeighMoving::create(false, 4, 10.); },
+                 {"kriging", "simtub-cond", "inverseDistance", "movingAverage", "dbStatisticsOnGrid", "krigcell", "migrateByLocator1", "leastSquares"}});
+  FAM.push_back({"anamorphosis transforms on one data base (20 data)",
+                 [](World& w) { w.dbout = anamdata(); w.anam = fitted_anam(); },
+                 {"rawToGaussianByLocator", "rawToFactor", "normalScore", "rawToGaussian"}});
+}
+static const char* PAIR_POINTS[] = {"after-run", "after-preprocess", "after-postprocess"};
+// index (1-based) of the first hook call labelled 'label' when 's' runs on a fresh world of the family; 0 if absent
+static int find_point(const Family& f, const Scenario& s, const std::string& label)
+{
+  World w; f.build(w);
+  g_calls = 0; g_points.clear(); g_failAt = 0;
+  (void)s.call(w);
+  int k = 0;
+  for (int i = 1; i <= (int)g_points.size() && k == 0; i++) if (point_label(i) == label) k = i;
+  destroy(w);
+  return k;
+}
+static std::vector<std::string> world_snaps(const World& w)
+{
+  std::vector<std::string> v = {snap(w.dbin), snap(w.dbout)};
+  for (Db* a : w.aux) v.push_back(snap(a));
+  return v;
+}
+static void run_pair_case(const Family& f, const Scenario& A, const std::string& p, const Scenario& B, const std::string& q, const Scenario& Cc, Report& R)
+{
+  gstlearn_verif_fault = verif_hook;
+  int ka = find_point(f, A, p), kb = find_point(f, B, q);
+  if (ka == 0 || kb == 0) { R.outcomes.push_back("pair-point-unreached"); return; }
+  World w; f.build(w);
+  std::string seq = "family=" + f.name + " sequence=[fail " + A.calc + "@" + p + " ; fail " + B.calc + "@" + q + " ; run " + Cc.calc + "]";
+  const Scenario* steps[2] = {&A, &B};
+  int ks[2] = {ka, kb};
+  std::string pts[2] = {p, q};
+  for (int st = 0; st < 2; st++)
+  {
+    std::vector<std::string> before = world_snaps(w);
+    g_calls = 0; g_points.clear(); g_failAt = ks[st];
+    int ret = steps[st]->call(w);
+    g_failAt = 0;
+    if (ret == 0)
+    { R.viol.push_back({"success-despite-fault:" + steps[st]->key() + ":" + pts[st], seq + " : step " + std::to_string(st + 1) + " reports success although a stage failed"}); R.outcomes.push_back("pair-stopped"); destroy(w); return; }
+    std::vector<std::string> after = world_snaps(w);
+    if (after != before)
+    {
+      std::string d;
+      for (size_t k = 0; k < before.size(); k++) if (before[k] != after[k]) d += " db#" + std::to_string(k) + ":" + snapdiff(before[k], after[k]);
+      R.viol.push_back({"rollback:" + steps[st]->key() + ":" + pts[st], seq + " : step " + std::to_string(st + 1) + " (failure #" + std::to_string(st + 1) + " on the same data bases) leaves them changed:" + d});
+      R.outcomes.push_back("pair-stopped-after-dirty-failure");
+      destroy(w);
+      return;
+    }
+  }
+  R.exercised = true;
+  // final step: success
+  std::string bin = snap(w.dbin);
+  std::vector<ColInfo> c0 = columns(w.dbout);
+  g_calls = 0; g_points.clear();
+  int ret = Cc.call(w);
+  World fr; f.build(fr);
+  g_calls = 0; g_points.clear();
+  int rf = Cc.call(fr);
+  if (ret != rf || (ret != 0 && ret != NOSTATUS))
+    R.viol.push_back({"pair-final-status:" + Cc.key(), seq + " : the final call returns " + std::to_string(ret) + " (alone on fresh data bases: " + std::to_string(rf) + ")"});
+  else
+  {
+    if (w.dbin && w.dbin != w.dbout && snap(w.dbin) != bin) R.viol.push_back({"success-changes-dbin:" + Cc.key(), seq + " : the input data base differs after the final successful call:" + snapdiff(bin, snap(w.dbin))});
+    if (snap_nouid(w.dbout) != snap_nouid(fr.dbout) || snap_nouid(w.dbin) != snap_nouid(fr.dbin))
+      R.viol.push_back({"pair-final-differs:" + Cc.key(), seq + " : after two rolled-back failures the final result differs from the same call alone on fresh data bases:" + snapdiff(snap_nouid(fr.dbout), snap_nouid(w.dbout))});
+    // exactly the documented outputs
+    const std::vector<std::string>* en = Cc.expected();
+    std::vector<ColInfo> c1 = columns(w.dbout);
+    std::vector<std::string> got;
+    for (size_t ic = 0; ic < c1.size(); ic++)
+    {
+      bool old = false;
+      for (auto& o : c0) if (o.uid == c1[ic].uid) { old = true; if (o.name != c1[ic].name || o.bits != c1[ic].bits) R.viol.push_back({"success-changes-old-values:" + Cc.key(), seq + " : the pre-existing column '" + o.name + "' changed"}); }
+      if (old) continue;
+      ELoc lt; int li;
+      std::string role = w.dbout->getLocatorByColIdx((int)ic, &lt, &li) ? std::string(lt.getKey()) + std::to_string(li) : std::string("");
+      got.push_back(c1[ic].name + "|" + role);
+    }
+    if (en != nullptr)
+    {
+      std::vector<char> used(got.size(), 0);
+      bool ok = got.size() == en->size();
+      for (auto& spec : *en)
+      {
+        bool fnd = false;
+        for (size_t k = 0; k < got.size() && !fnd; k++)
+          if (!used[k] && exp_name(got[k]) == exp_name(spec) && (exp_role(spec) == "?" || exp_role(got[k]) == exp_role(spec))) { used[k] = 1; fnd = true; }
+        if (!fnd) ok = false;
+      }
+      if (!ok)
+      {
+        std::string g, x;
+        for (auto& n : got) g += " '" + n + "'";
+        for (auto& n : *en) x += " '" + n + "'";
+        R.viol.push_back({"success-output-names:" + Cc.key(), seq + " : variables (name|role) added by the final call:" + g + " ; documented:" + x});
+      }
+    }
+    R.outcomes.push_back("pair-completed");
+  }
+  destroy(fr); destroy(w);
+}
+
+VF_PART(pairs)
+{
+  for (size_t fi = 0; fi < FAM.size(); fi++)
+  {
+    const Family& f = FAM[fi];
+    std::vector<const Scenario*> mem;
+    for (auto& n : f.members) { const Scenario* s = find_scenario(n); if (s) mem.push_back(s); }
+    int nm = C.thorough() ? (int)mem.size() : std::min(4, (int)mem.size());
+    int np = C.thorough() ? 3 : 2;
+    Space sp;
+    sp.axis("A", nm).axis("p", np).axis("B", nm).axis("q", np).axis("C", nm);
+    for_each_case(C, sp, [&](uint64_t id, const std::vector<int>& idx) {
+      const Scenario &A = *mem[idx[0]], &B = *mem[idx[2]], &Cc = *mem[idx[4]];
+      std::string p = PAIR_POINTS[idx[1]], q = PAIR_POINTS[idx[3]];
+      ChildResult cr = run_child([&](int wfd) {
+        Report R;
+        run_pair_case(f, A, p, B, q, Cc, R);
+        std::string o;
+        for (auto& v : R.viol) o += "V\t" + v.first + "\t" + v.second + "\n";
+        for (auto& x : R.outcomes) o += "O\t" + x + "\n";
+        if (R.exercised) o += "X\n";
+        o += "END\n";
+        child_write(wfd, o);
+        return 0;
+      }, 30., 0);
+      C.eval();
+      std::string kase = std::to_string(fi) + "/" + std::to_string(id);
+      uint64_t sig = Hash().u(fi).u(id).h;
+      bool complete = cr.data.size() >= 4 && cr.data.substr(cr.data.size() - 4) == "END\n";
+      if (!cr.clean() || cr.code != 0 || !complete)
+      {
+        C.violation("crash:pair:" + A.key() + "@" + p + ";" + B.key() + "@" + q + ";" + Cc.key(), "family=" + f.name + " : the child process ended with " + cr.describe(), std::to_string(id));
+        C.outcome("crash-or-timeout"); C.nontrivial(sig);
+        return;
+      }
+      std::stringstream ss(cr.data);
+      std::string line;
+      while (std::getline(ss, line))
+      {
+        if (line == "X") C.nontrivial(sig);
+        else if (line.rfind("O\t", 0) == 0) C.outcome(line.substr(2));
+        else if (line.rfind("V\t", 0) == 0) { size_t t = line.find('\t', 2); C.violation(line.substr(2, t - 2), line.substr(t + 1), std::to_string(id)); }
+      }
+    });
+  }
+}
+
 // flag variants: the no-fault baseline for every variant x 3 priors; the fault plans only for every 5th variant
 VF_PART(flags)
 {
@@ -907,5 +1074,5 @@ int main(int argc, char** argv)
     }
     return 0;
   }
-  return run_main(argc, argv, [](Ctx&) { silence(); build_scenarios(); build_scenarios2(); build_flag_variants(); });
+  return run_main(argc, argv, [](Ctx&) { silence(); build_scenarios(); build_scenarios2(); build_flag_variants(); build_families(); });
 }
